@@ -164,7 +164,10 @@ func c19OptionsAgree(c *Ctx, p *core.Prog) {
 					}
 				}
 				if len(s.fields) >= 2 {
-					byType[T.Obj().Name()] = append(byType[T.Obj().Name()], s)
+					// siblings are the literals of one type in one source file (one command): another command may
+					// legitimately fill the same struct from its own flags
+					gk := T.Obj().Name() + "@" + filepathBase(p.Pos(a.Pos()))
+					byType[gk] = append(byType[gk], s)
 				}
 			}
 		}
@@ -180,7 +183,7 @@ func c19OptionsAgree(c *Ctx, p *core.Prog) {
 		sort.Slice(sites, func(i, j int) bool { return sites[i].pos < sites[j].pos })
 		for i, s := range sites {
 			n++
-			key := tn + "|" + core.FnName(s.fn) + sprintf("#%d", i+1)
+			key := strings.SplitN(tn, "@", 2)[0] + "|" + core.FnName(s.fn) + sprintf("#%d", i+1)
 			var probs []string
 			// one variable, two fields
 			used := map[string][]string{}
@@ -220,4 +223,15 @@ func c19OptionsAgree(c *Ctx, p *core.Prog) {
 		}
 	}
 	r.Extra("option_literals", n)
+}
+
+// filepathBase: file name of a "path/file.go:line" position string.
+func filepathBase(pos string) string {
+	if i := strings.LastIndex(pos, "/"); i >= 0 {
+		pos = pos[i+1:]
+	}
+	if i := strings.Index(pos, ":"); i >= 0 {
+		pos = pos[:i]
+	}
+	return pos
 }
